@@ -160,6 +160,59 @@ theorem no_unknownFn (P : Prog) (O : Oracle) (s : Stmt) (h : ∀ f, Invoked P s 
   rw [hn] at this
   cases this
 
+-- ------------------------------------------------------------------ reading the answer back
+
+theorem setMany_other (x : Var) : ∀ (outs : List Var) (σ : State) (ans : List Nat), x ∉ outs →
+    setMany σ outs ans x = σ x := by
+  intro outs
+  induction outs with
+  | nil => intro σ ans _; cases ans <;> rfl
+  | cons y ys ih =>
+    intro σ ans hx
+    have hxy : x ≠ y := fun h => hx (h ▸ List.mem_cons_self)
+    have hys : x ∉ ys := fun h => hx (List.mem_cons_of_mem _ h)
+    cases ans with
+    | nil => simp only [setMany]; rw [ih _ _ hys]; simp [State.set, hxy]
+    | cons a as => simp only [setMany]; rw [ih _ _ hys]; simp [State.set, hxy]
+
+/-- pairwise distinct result variables receive the numbers of the answer in order (0 where it is short) -/
+theorem setMany_get : ∀ (outs : List Var) (σ : State) (ans : List Nat), outs.Nodup →
+    ∀ (k : Nat) (hk : k < outs.length), setMany σ outs ans outs[k] = ans.getD k 0 := by
+  intro outs
+  induction outs with
+  | nil => intro σ ans _ k hk; cases hk
+  | cons y ys ih =>
+    intro σ ans hnd k hk
+    have hy : y ∉ ys := (List.nodup_cons.1 hnd).1
+    have hys : ys.Nodup := (List.nodup_cons.1 hnd).2
+    cases k with
+    | zero =>
+      cases ans with
+      | nil => simp only [setMany, List.getElem_cons_zero]; rw [setMany_other y ys _ _ hy]; simp [State.set]
+      | cons a as => simp only [setMany, List.getElem_cons_zero]; rw [setMany_other y ys _ _ hy]; simp [State.set]
+    | succ k =>
+      have hk' : k < ys.length := by simpa using hk
+      cases ans with
+      | nil => simp only [setMany, List.getElem_cons_succ]; rw [ih _ _ hys k hk']; simp
+      | cons a as => simp only [setMany, List.getElem_cons_succ]; rw [ih _ _ hys k hk']; simp
+
+/-- the commonest contract, `err == nil → result != nil` with outs = result :: err :: … : it holds when the
+    answer has a non-zero first number whenever its second number is 0 -/
+theorem holds_onOk_first (O : Oracle) (f : String) (x e : Var) (rest : List Var) (hnd : (x :: e :: rest).Nodup)
+    (h : ∀ σ, (O f σ).getD 1 0 = 0 → (O f σ).getD 0 0 ≠ 0) : Holds O (f, x :: e :: rest, onOk e [.nz x]) := by
+  intro σ
+  have hx := setMany_get (x :: e :: rest) σ (O f σ) hnd 0 (by simp)
+  have he := setMany_get (x :: e :: rest) σ (O f σ) hnd 1 (by simp)
+  simp only [List.getElem_cons_zero, List.getElem_cons_succ] at hx he
+  have h' := h σ
+  generalize (O f σ).getD 0 0 = a at hx h'
+  generalize (O f σ).getD 1 0 = b at he h'
+  simp only [HoldsAt, onOk, List.map_cons, List.map_nil, List.all_cons, List.all_nil, Bool.and_true, Clause.eval,
+    Atom.eval, hx, he]
+  by_cases h0 : b = 0
+  · have := h' h0; simp [h0, this]
+  · simp [h0]
+
 -- ------------------------------------------------------------------ the table of MW.Model.Api
 
 /-- every call node of the model (all hand-written bodies, in table order of `bodies`) -/
